@@ -85,11 +85,25 @@ def synchronize_terminal_measurements(
     """
     if context is None:
         context = transformer_api.TransformerContext()
-    terminal_measurements = [
+    movable = {
         (i, op)
         for i, op in find_terminal_measurements(circuit)
         if set(op.tags).isdisjoint(context.tags_to_ignore)
-    ]
+    }
+    # Measurements of the same key must keep their relative order: collect the measurements in
+    # circuit order, and do not move one behind a later measurement of its key that stays in place.
+    terminal_measurements: list[tuple[int, cirq.Operation]] = []
+    staying_keys: set[cirq.MeasurementKey] = set()
+    for i in range(len(circuit) - 1, -1, -1):
+        moved = [
+            (i, op)
+            for op in circuit[i]
+            if (i, op) in movable and staying_keys.isdisjoint(protocols.measurement_key_objs(op))
+        ]
+        terminal_measurements = moved + terminal_measurements
+        for op in circuit[i]:
+            if (i, op) not in moved:
+                staying_keys |= protocols.measurement_key_objs(op)
     ret = circuit.unfreeze(copy=True)
     if not terminal_measurements:
         return ret
